@@ -146,9 +146,11 @@ def register(cat):
         shape = c.g.choice(c.heap_families())
         n = len(shape)
         rd = _dims_subset(c.g, n, 1, n - 1)
+        if c.g.random() < 0.25:
+            rd = list(range(n)) if c.g.random() < 0.5 else []
         cd = [d for d in range(n) if d not in rd]
         c.g.shuffle(cd)
-        rows = int(np.prod([shape[d] for d in rd]))
+        rows = int(np.prod([shape[d] for d in rd])) if rd else 1
         cols = int(np.prod([shape[d] for d in cd])) if cd else 1
         a = c.fresh(np.asfortranarray(rand_array(c.g, (rows, cols))))
         return {"operands": [a], "rdims": rd, "cdims": cd, "tshape": list(shape), "copy": c.g.random() < 0.5}
@@ -157,7 +159,7 @@ def register(cat):
         "tenmat_ctor",
         None,
         gen_tenmat_ctor,
-        lambda eng, ops, st: ttb.tenmat(ops[0], np.array(st["rdims"]), np.array(st["cdims"]), tuple(st["tshape"]), copy=st["copy"]),
+        lambda eng, ops, st: ttb.tenmat(ops[0], np.array(st["rdims"], dtype=int), np.array(st["cdims"], dtype=int), tuple(st["tshape"]), copy=st["copy"]),
         allowed=lambda st: () if st["copy"] else (0,),
     )
 
@@ -218,7 +220,11 @@ def register(cat):
     def gen_T_to_tenmat(c, r):
         n = c.obj(r).ndims
         rd = _dims_subset(c.g, n, 1, max(1, n - 1))
+        if c.g.random() < 0.25:
+            rd = list(range(n))  # every mode in the rows: a single-column matricization
         form = c.g.choice(["rdims", "rdims_cdims", "cdims", "cyclic"])
+        if len(rd) == n:
+            form = "rdims"
         st: Dict[str, Any] = {"operands": [r], "copy": c.g.random() < 0.5, "form": form, "rdims": rd}
         cd = [d for d in range(n) if d not in rd]
         c.g.shuffle(cd)
@@ -231,7 +237,7 @@ def register(cat):
     def run_T_to_tenmat(eng, ops, st):
         t = ops[0]
         if st["form"] == "rdims":
-            return t.to_tenmat(rdims=np.array(st["rdims"]), copy=st["copy"])
+            return t.to_tenmat(rdims=np.array(st["rdims"], dtype=int), copy=st["copy"])
         if st["form"] == "cdims":
             return t.to_tenmat(cdims=np.array(st["cdims"]), copy=st["copy"])
         if st["form"] == "cyclic":
